@@ -963,7 +963,8 @@ class Engine:
             dec0 = spec.decreases(View(body_st, self)) if spec.decreases else None
             for s, kind, payload in self.block(body, body_st):
                 written = s.writes
-                self.check_loop_frame(written, spec.frame, lid, allowed_locs, head_locs)
+                # locals are loop-carried values (havoced at the head by auto_havoc_locals / the frame); only heap writes are checked
+                self.check_loop_frame({w for w in written if not w.startswith('$')}, spec.frame, lid, allowed_locs, head_locs)
                 s.writes = saved if saved is None else (saved | written)
                 if kind in (None, 'continue'):
                     for name, fn in spec.inv:
